@@ -12,7 +12,7 @@ Theorem C03_threads_and_value_chunks_float r gk chunks chunks' ng m nt nt' :
   concat chunks = concat chunks' -> length gk = length (concat chunks) -> wf_mask (length gk) m ->
   covered chunks m -> covered chunks' m ->
   group_func_wrap fops r gk chunks ng m nt = group_func_wrap fops r gk chunks' ng m nt'.
-Proof. exact (group_func_wrap_split_independent fops fops_laws fops_sum_closed r gk chunks chunks' ng m nt nt'). Qed.
+Proof. exact (group_func_wrap_split_independent fops fops_laws r gk chunks chunks' ng m nt nt'). Qed.
 Print Assumptions C03_threads_and_value_chunks_float.
 
 Theorem C03_threads_and_value_chunks_int nullv r gk chunks chunks' ng m nt nt' :
@@ -22,10 +22,24 @@ Theorem C03_threads_and_value_chunks_int nullv r gk chunks chunks' ng m nt nt' :
   covered chunks m -> covered chunks' m ->
   group_func_wrap o r gk chunks ng m nt = group_func_wrap o r gk chunks' ng m nt'.
 Proof.
-  exact (fun Hr => group_func_wrap_split_independent _ (zops_laws false nullv) (zops_never_null_closed nullv)
+  exact (fun Hr => group_func_wrap_split_independent _ (zops_laws false nullv)
                      r gk chunks chunks' ng m nt nt' Hr (fun _ _ => eq_refl)).
 Qed.
 Print Assumptions C03_threads_and_value_chunks_int.
+
+(* timestamps / timedeltas (int64 view, NaT = sentinel): every reducer the wrappers pass for them (the nan*
+   family, count, first, last) — the partial results are merged by the plain addition / the same reducer *)
+Theorem C03_threads_and_value_chunks_temporal r gk chunks chunks' ng m nt nt' :
+  let o := zops true 0 in
+  kernel_value_reducer r -> r <> Rsum -> (0 < nt)%nat -> (0 < nt')%nat -> chunks <> [] -> chunks' <> [] ->
+  concat chunks = concat chunks' -> length gk = length (concat chunks) -> wf_mask (length gk) m ->
+  covered chunks m -> covered chunks' m ->
+  group_func_wrap o r gk chunks ng m nt = group_func_wrap o r gk chunks' ng m nt'.
+Proof.
+  exact (fun Hr Hne => group_func_wrap_split_independent _ (zops_laws true 0)
+                     r gk chunks chunks' ng m nt nt' Hr (fun E => False_ind _ (Hne E))).
+Qed.
+Print Assumptions C03_threads_and_value_chunks_temporal.
 
 (* 2. Keys factorized whole or in chunks (also: the sorted-prefix fast path is just one more
       chunk): per-chunk kernel runs on chunk-local codes, scattered through the pointer
